@@ -115,7 +115,8 @@ class Context(object):
     return "violation"
 
   def finish(self):
-    os.makedirs(EVIDENCE, exist_ok=True)
+    edir = EVIDENCE if not self.pid.startswith("X") else os.path.join(VERIF, "evidence_extra")
+    os.makedirs(edir, exist_ok=True)
     rc = 0
     for w, n in sorted(self.known_hits.items()):
       print("KNOWN-FINDING: property=%s %s (hit %d times)" % (self.pid, w, n))
@@ -156,7 +157,7 @@ class Context(object):
               level=self.level, coverage=cov, assumptions=self.assumptions,
               wall_s=round(time.time() - self.t0, 2),
               violations=len(self.violations))
-    with open(os.path.join(EVIDENCE, self.pid + ".json"), "w") as f:
+    with open(os.path.join(edir, self.pid + ".json"), "w") as f:
       json.dump(ev, f, indent=1, default=str)
     print("%s tier=%s: states=%d transitions=%d impl_traces=%d evaluations=%d "
           "distinct=%d violations=%d known=%d wall=%.1fs" %
